@@ -29,6 +29,7 @@ def parse(text: str, statement_stream_processor: "StatementStreamProcessor", *, 
     pr = _ParseTreeProcessor(statement_stream_processor, strict=strict)
     try:
         pr.visit(_get_grammar().parse(text))  # type: ignore
+        pr.flush_at_end_of_input()
     except _error.Error as ex:
         # Inject error location. If this exception is being propagated from a recursive instance, it already has
         # its error location populated, so nothing will happen here.
@@ -156,6 +157,14 @@ class _ParseTreeProcessor(parsimonious.NodeVisitor):
             self._statement_stream_processor.on_attribute_comment(self._comment)
         self._comment_is_header = False
         self._comment = ""
+
+    def flush_at_end_of_input(self) -> None:
+        """
+        The last attribute and the trailing comment are committed by the next line event; if the text does not end
+        with a line break there is no such event, so the pending items shall be flushed explicitly.
+        """
+        if self._comment != "" or not self._comment_is_header:
+            self._flush_comment()
 
     def generic_visit(self, node: _Node, visited_children: typing.Sequence[typing.Any]) -> typing.Any:
         """If the node has children, replace the node with them."""
